@@ -22,7 +22,7 @@ RULE = ("random histories (<= 12 events, thorough <= 40) over {connect, peer clo
         "linktest timer expiry} in passive "
         "and active mode (own Select.req answered, answered with a foreign system, left to T6), plus connect-vs-inbound "
         "Select.req races under yield injection; distinct by (mode, event sequence | race schedule seed); non-trivial "
-        "when at least one message was injected while connected; plus: bursts of 300-1100 Linktest.req in one segment; a link lost inside a frame that sits behind a complete message in the same segment")
+        "when at least one message was injected while connected; plus: bursts of 300-1100 Linktest.req in one segment; a link lost inside a frame that sits behind a complete message in the same segment; requests of the application that end with T3, their system bytes then carried by an inbound message")
 ASSUMPTIONS = ["select status codes are not judged (only that a response of the matching type with the request's system bytes "
                "is sent)", "unsolicited or non-matching *.rsp frames: only 'no crash, state stays legal' is demanded and the "
                "model is resynchronised from the observed state", "after Separate.req both NOT SELECTED and NOT CONNECTED are "
@@ -33,7 +33,7 @@ LEVEL_NOTE = "Histories and schedules are sampled; the reference machine is writ
 TECHNIQUE = "runtime reference-model monitor (E37 session) over generated histories + yield-injected connect/receive race"
 SHARDS = {"quick": 8, "thorough": 16}
 TIMEOUT = {"quick": 400, "thorough": 3400}
-FLOORS = {"oracle.control_request_answered": 300, "oracle.data_rejected_when_not_selected": 60,
+FLOORS = {"requests_ended_by_T3": 3, "oracle.control_request_answered": 300, "oracle.data_rejected_when_not_selected": 60,
           "oracle.data_delivered_when_selected": 60, "oracle.state_samples": 1500, "race.rounds": 20,
           "histories.passive": 30, "histories.active": 30, "oracle.reply_routing_vs_selected_state": 20,
           "link_lost_inside_a_frame": 20}
@@ -50,6 +50,7 @@ class Run:
         self.active = active
         self.rig = Rig(active=active, t6=t6, t3=1.0)
         self.open_req = None
+        self.stale_systems = []    # system bytes of requests that ended without a reply
         self.model = {NC}          # set of admissible states
         self.hist = []
         self.sysgen = gen.system_bytes(ctx.rng, 0x10000 + ctx.rng.randrange(1 << 20) * 16)
@@ -281,6 +282,10 @@ class Run:
 
         rng = self.ctx.rng
         system = next(self.sysgen)
+        if self.stale_systems and rng.random() < 0.9:
+            # a message that carries the system bytes of an earlier request that nobody answered: a message like any other
+            system = self.stale_systems.pop()
+            self.ctx.count("oracle.data_with_system_bytes_of_a_timed_out_request")
         if kind == "header_only":
             s, f = rng.choice(_header_only())
             body = rng.choice([b"", b"", rng.randbytes(rng.randint(1, 20))])
@@ -353,6 +358,20 @@ class Run:
             return
         self.hist.append(f"app request S1F1W({reqs[0].system:#x}) outstanding")
         self.open_req = {"system": reqs[0].system, "box": box, "done": done}
+
+    def ev_let_request_time_out(self):
+        """Nobody answers the outstanding request: it ends with T3. Its system bytes are used by a later inbound message."""
+        req = getattr(self, "open_req", None)
+        if req is None:
+            return
+        req["done"].wait(6.0)      # T3 is 1 s in these sessions
+        self.open_req = None
+        self.rig.quiesce(0.3)
+        self.new_frames()
+        if req["done"].is_set() and req["box"].get("r") is None and "exc" not in req["box"]:
+            self.hist.append(f"request ({req['system']:#x}) ended without reply (T3)")
+            self.stale_systems.append(req["system"])
+            self.ctx.count("requests_ended_by_T3")
 
     def ev_reply_to_open_request(self):
         req = getattr(self, "open_req", None)
@@ -439,6 +458,12 @@ def _history(ctx, active, length):
             if q < 0.65:
                 rng.choice([lambda: run.ev_control_req(wire.DESELECT_REQ), run.ev_separate, lambda: run.ev_control_req(wire.SELECT_REQ)])()
                 continue
+            if q < 0.77:
+                run.ev_let_request_time_out()
+                continue
+        if run.stale_systems and r < 0.6:
+            run.ev_data(rng.choice(["header_only", "uncatalogued"]), rng.random() < 0.5)
+            continue
         if r < 0.06:
             run.ev_peer_close()
         elif r < 0.10:
